@@ -14,6 +14,11 @@ CHECKS = {
    text="Every sequence of define/delete resource, define/delete relationship (all ordered pairs incl. self-edges), delete-many and one-to-many, each executed directly, in a committed and in an aborted transaction (plus multi-op transactions), over identifiers that are string prefixes/suffixes of one another, up to the depth bound; after every step the raw tables equal the model, the graph is acyclic and parent/child/2-hop/descendant traversals equal a plain graph search in the committed view and in the open transaction.",
    note="memkv storage; go1.26.8 toolchain; relationship types share one graph for cycle detection (what the implementation's descendant walk does); a fatal runtime error of the code under test is caught by the re-exec supervisor and replayed.",
    design="3/C16"),
+ "C18": dict(level="model_checking", engine="seqx",
+   technique="explicit-state BFS over the real rbac.Service stack with a set-based reference; every request enforced after every step (biconditional)",
+   text="Every sequence of create/delete role, create/delete policy, attach, assign/unassign (directly or inside multi-op transactions that commit or abort) up to the depth bound, from the empty and from a seeded configuration; after every step every request in {2 subjects, unknown subject} x {retrieve, delete} x object lists of length 1-2 (covered by type, by identity, same key under another type, key extending a covered key, uncovered) is enforced in the committed view and inside the open transaction and compared with the reference in both directions; RetrievePoliciesForSubject equals the model as a set.",
+   note="memkv storage; go1.26.8 toolchain; an accepted attach/assign of a missing role or policy is taken at its word (recorded, grants nothing until both ends exist); depth-bounded, not a fixpoint.",
+   design="3/C18"),
 }
 NOT_YET = {}
 props = [json.loads(l) for l in open(os.path.join(HERE, "properties.jsonl"))]
